@@ -131,6 +131,7 @@ SIMPLE = [
     S("declare", "{n1}: int", special=True),
     S("declare-use", ["{n1}: int", "{n2} = E({e1}, {n1})"], cur="n2", special=True),
     S("declare-tagged", ["{n1}: tag.A", "{n2} = E({e1}, {n1})"], cur="n2", special=True),
+    S("declare-attr", ["o.at: int", "{n1} = E({e1}, o.at)"], cur="n1", flags=["o"], special=True),
     S("undef-read", "{n1} = E({e1}, UNDEF)", cur="n1", special=True),
     S("late-read", "{n1} = LATER + E({e1}, {p})", cur="n1", special=True),
     S("break", "break", needs_loop=True),
